@@ -416,7 +416,8 @@ def _random_config(rng, name, n, d, K=None, max_iter=None, nonneg=False, allow_p
     if name in MLP_LIKE:
         p["n_hidden_dim"] = int(rng.integers(1, 6))
     if name in SPARSE:
-        p["alpha"] = float([0.0, 1e-3, 1e-2, 0.1, 1.0, 5.0][int(rng.integers(0, 6))])
+        # (50 and 5000: penalties strong enough to switch every feature off within a few steps - a legal, if useless, model)
+        p["alpha"] = float([0.0, 1e-3, 1e-2, 0.1, 1.0, 5.0, 50.0, 5000.0][int(rng.integers(0, 8))])
         p["groups"] = random_groups(rng, d)
         if name != "SparseLinearMI":
             p["dynamic"] = bool(rng.random() < 0.3)
